@@ -3612,6 +3612,35 @@ theorem C09_aggr_writer_real_round_trip (env : Env Nat) (hops : env.ops = dblOps
   have := C09_aggr_accept env hagg .real id (fun _ => rfl) _ (by simpa using hne) hok l sk rest
   simpa [List.map_map, Function.comp_def] using this
 
+/-- **aggregate of aggregates, written and read back**: the stored raw texts `(uᵢ)` (`RawS`: balanced, string literals of the
+    grammar allowed) are written as they are, comma-separated, and read back to the same texts -/
+theorem C09_aggr_writer_nested_round_trip {F} (env : Env F) (hagg : env.cfg.aggrSkipsComments = true) (d : Dict)
+    (us : List (List Byte)) (hne : us ≠ []) (hr : ∀ u ∈ us, RawS u) (l : List Byte) (sk : Bool) (rest : List Byte) :
+    aggrRead env .generic
+        (G l (writeAggr env.ops env.cfg d .generic (us.map (fun u => (Elem.atom (.undef (40 :: (u ++ [41]))) : Elem F))) ++ rest) sk) =
+      .ok (.null, some (us.map (fun u => (Elem.atom (.undef (40 :: (u ++ [41]))) : Elem F))),
+        G ((writeAggr env.ops env.cfg d .generic (us.map (fun u => (Elem.atom (.undef (40 :: (u ++ [41]))) : Elem F)))).reverse ++ l)
+          rest sk) := by
+  have htk : ∀ (sc : List Byte) (a : Atom F), nodeWrite env.ops env.cfg d .generic sc (Elem.atom a) =
+      (match a with | .unset => [36] | a => writeAtomCore env.ops .generic a) := by
+    intro sc a; cases a <;> rfl
+  have hw : writeAggr env.ops env.cfg d .generic (us.map (fun u => (Elem.atom (.undef (40 :: (u ++ [41]))) : Elem F))) =
+      40 :: renderQ (us.map (fun u => (⟨40 :: (u ++ [41]), [], [], .atom (.undef (40 :: (u ++ [41])))⟩ : ElemQ F))) := by
+    unfold writeAggr
+    have := writeNodes_atoms env.ops env.cfg d .generic _ htk
+      (us.map (fun u => (Atom.undef (40 :: (u ++ [41])) : Atom F))) [] (by simpa using hne)
+    simp only [List.map_map, Function.comp_def, writeAtomCore] at this
+    simp only [List.cons_append, List.nil_append, List.map_map, Function.comp_def]
+    rw [this]
+  rw [hw]
+  have := C09_aggr_nested_accept_strings env hagg
+    (us.map (fun u => (⟨40 :: (u ++ [41]), [], [], .atom (.undef (40 :: (u ++ [41])))⟩ : ElemQ F))) (by simpa using hne)
+    (by
+      intro e he
+      obtain ⟨u, hu, rfl⟩ := List.mem_map.1 he
+      exact ⟨u, hr u hu, rfl, Seps.blanks [] (by simp), rfl, rfl⟩) l sk rest
+  simpa [List.map_map, Function.comp_def] using this
+
 end Aggregates
 
 /-! ## anywhere in a stream, either state of `skipws`
